@@ -31,5 +31,6 @@ let errtell_serverError =
     (CPred PTraceBack))) :: ((TIf ((COr ((CPred PRemoteExit), (CPred
     PRemoteFail))), ((TExit false) :: (TReturn :: [])), [])) :: []))),
     [])) :: ((TSetStr (VTyp, WFail)) :: ((TIf ((CVar VTrace), ((TSetStr
-    (VTyp, WFAIL)) :: []), [])) :: ((TSend ((SVar VTyp), false)) :: ((TExit
-    false) :: []))))))
+    (VTyp, WFAIL)) :: []), [])) :: ((TSend ((SVar VTyp), false)) :: ((TIf
+    (CWindow, (TSwitchWriter :: ((TSend ((SVar VTyp), false)) :: [])),
+    [])) :: ((TExit false) :: [])))))))
